@@ -31,9 +31,27 @@ THEOREMS += ['CC.C16_gen_construct', 'CC.C16_gen_keep', 'CC.C16_gen_is_zero_node
     'CC.C16_gen_passiveNetwork', 'CC.C16_gen_defaults', 'CC.C16_gen_finite']
 LEAN_MODULE_EXTRA = ['CC.Properties.C16Gen', 'CC.Properties.C16Converse']
 THEOREMS += ['CC.C16_open_converse', 'CC.C16_open_iff']
-OPEN_STATEMENTS = ['WHICH branches survive contraction (every non-contracted branch and every exempt element is kept): no theorem — a model that discards every branch would satisfy C16_short, C16_short_no_new_branch and C16_short_complete; survival is tied to the code by C16_gen_removeShort (generated = hand model) and judged per instance by the structural correspondence and the oracle (exempted_removed, order_or_duplicate)',
-                   'remove_ideal_* / passive_network as compositions, and "the input network is never modified": properties of the pure functional model, no theorem (the latter is judged by the oracle and by C20)',
-                   'converse direction for short-circuit contraction (every solution of the contracted network extends to the original): not universally true — a branch parallel to a contracted short is dropped, and if it is an ideal source with V ≠ 0 the original has no solution; proved for open removal (C16_open_converse / C16_open_iff), covered per instance by the exact-solution oracle otherwise',
+# Round 5: the complete structural characterisation of the contraction (CC/Proofs/ContractShape.lean,
+# CC/Properties/C16Survive.lean) and the shapes of the other transformers (CC/Properties/C16Compose.lean)
+LEAN_MODULE_EXTRA += ['CC.Properties.C16Survive', 'CC.Properties.C16Compose']
+THEOREMS += ['CC.contractAll_eq', 'CC.sigmaAll_fix', 'CC.sigmaAll_fix_nonterm', 'CC.sigmaAll_zero', 'CC.sigmaAll_range',
+    'CC.sigmaAll_not_absorbed', 'CC.sigmaAll_idem', 'CC.sigmaAll_eq_iff', 'CC.absorbed_isTerm', 'CC.zero_not_absorbed',
+    'CC.C16_contract_shape', 'CC.C16_short_shape', 'CC.C16_short_branches', 'CC.C16_short_no_shorts',
+    'CC.C16_short_sigma_eq_iff', 'CC.C16_short_sigma_zero', 'CC.C16_short_sigma_fix', 'CC.C16_short_sigma_absorbed',
+    'CC.C16_short_absorbed_is_short_terminal', 'CC.C16_short_no_absorbed_terminal',
+    'CC.C16_short_survivors_iff', 'CC.C16_short_survives', 'CC.C16_short_survives_sigma', 'CC.C16_short_survives_iff',
+    'CC.C16_short_contracted_dropped', 'CC.C16_short_dropped_iff', 'CC.C16_exempt_dropped_only_if_joined',
+    'CC.C16_exempt_survives', 'CC.C16_short_order', 'CC.C16ex.exShort', 'CC.C16ex.exSigma',
+    'CC.C16_open_shape', 'CC.C16_open_branches', 'CC.C16_open_survivors_iff',
+    'CC.C16_switch_ground_shape', 'CC.C16_switch_ground_branches', 'CC.C16_switch_ground_ok_iff',
+    'CC.C16_remove_element_shape', 'CC.C16_remove_element_filter', 'CC.C16_remove_element_missing',
+    'CC.C16_zero_current_branches', 'CC.C16_zero_voltage_branches',
+    'CC.C16_removeIdealCS_shape', 'CC.C16_removeIdealVS_shape', 'CC.C16_passive_shape', 'CC.C16_passive_survivors_iff',
+    'CC.C16ex.exP_passive']
+OPEN_STATEMENTS = ['WHICH branches survive contraction: PROVED in round 5 for the model — C16_short_shape (result = input branch list renamed by the computable node renaming shortSigma, minus the branches whose renamed terminals coincide; an equation between returned values, exceptions included), C16_short_survivors_iff / C16_short_survives / C16_short_contracted_dropped / C16_short_dropped_iff / C16_exempt_dropped_only_if_joined / C16_short_order, and the facts about the renaming (C16_short_sigma_eq_iff: two nodes get one name iff joined by non-exempt shorts; reference node and non-terminals fixed; nothing mapped to an absorbed node). A model that discards branches no longer satisfies the C16 theorems. What remains outside the theorems: they speak about the hand model, tied to the code by C16_gen_removeShort and per instance by the structural correspondence; self-loops of the INPUT are dropped iff at least one short is contracted (stated, C16_short_shape — a property of the code, not judged as right or wrong); C16_short_dropped_iff needs distinct identifiers (the Network constructor enforces them on the result, the hypothesis is on the input)',
+                   'remove_open / remove_element / switch_ground / remove_ideal_* / passive_network: result branch lists PROVED in round 5 (C16_open_branches, C16_remove_element_filter [distinct ids], C16_switch_ground_branches + C16_switch_ground_ok_iff, C16_removeIdealCS_shape, C16_removeIdealVS_shape, C16_passive_shape, C16_passive_survivors_iff). "The input network is never modified" is not a statement about the model — its functions are pure, there is nothing to prove; that the Python functions do not mutate their arguments is judged by the oracle (input_modified) and by C20',
+                   'converse direction for short-circuit contraction (every solution of the contracted network extends to the original): not universally true — a branch parallel to a contracted short is dropped (C16_short_dropped_iff says exactly which), and if it is an ideal source with V ≠ 0 the original has no solution; proved for open removal (C16_open_converse / C16_open_iff), covered per instance by the exact-solution oracle otherwise',
+                   'solution-level statements (CircuitEqs preserved) for remove_ideal_* / passive_network relative to the zeroed network: only through the composition C16_passive_shape + C16_open + C16_short applied stage by stage, not stated as one theorem',
                    'passive_network port-impedance equality as a theorem (needs the C06 port spec)']
 ASSUMPTIONS = [
     'hand-written model CC/Model/Transform.lean is tied to Network/transformers.py twice: by the translator (CC/Gen/Transformers.lean, regenerated every run, proved equal to the hand model by C16_gen_*) and by the structural correspondence',
